@@ -243,6 +243,25 @@ class FakeSerial:
     def write(self, data):
         return self.peer.tx(data)
 
+    def legacy(self):
+        """the same port in pyserial 2.x style: inWaiting() method, no in_waiting attribute"""
+        port = self
+
+        class LegacyPort(object):
+            is_open = True
+
+            def inWaiting(self):
+                return port.peer.avail()
+
+            def __getattr__(self, name):
+                if name == "in_waiting":
+                    raise AttributeError(name)
+                return getattr(port, name)
+
+            def __setattr__(self, name, value):
+                setattr(port, name, value)
+        return LegacyPort()
+
     def read(self, size):
         import serial
         p = self.peer
@@ -423,11 +442,18 @@ def decoded_dump(pdu):
 
 # ----------------------------------------------------------------------------- one client under test
 
+_RIG_COUNT = [0]
+
+
 class Rig:
     def __init__(self, kind, retries=None, retry_on_empty=False, retry_on_invalid=False, broadcast_enable=False,
                  tid0=0, backoff=None, timeout=TIMEOUT):
         from pymodbus.client import sync
         self.kind = kind
+        # every other rig talks to a port of the legacy pyserial style (inWaiting() only): both spellings are supported
+        # by the client's shim and must behave alike
+        _RIG_COUNT[0] += 1
+        self.legacy_port = (_RIG_COUNT[0] % 2 == 0)
         self.clock = VClock()
         self.stream_tcp = kind in ("tcp", "tcp_rtu", "tcp_ascii", "tcp_binary")
         self.peer = Peer(self.clock, datagram=(kind == "udp"), stream_reset_on_reconnect=self.stream_tcp or kind == "udp")
@@ -487,6 +513,8 @@ class Rig:
             if ok:
                 if rig.kind in ("rtu", "ascii", "binary"):
                     c.socket = FakeSerial(rig.peer, c.timeout)
+                    if rig.legacy_port:
+                        c.socket = c.socket.legacy()
                     if c.method == "rtu":
                         c.last_frame_end = None
                 else:
